@@ -311,6 +311,11 @@ def topic_map(ctx: Ctx, chk) -> None:
         if k.arg is None and isinstance(k.value, ast.Name):
             la = ctx.I.local_assigns(pub).get(k.value.id) or []
             for v in la:
+                if isinstance(v, ast.IfExp) and norm(v.test) == pp and isinstance(v.body, ast.Dict) and isinstance(v.orelse, ast.Dict) and not v.orelse.keys:
+                    # {"payload": payload} if payload else {}: the payload travels whenever it is not empty
+                    for dk, dv in zip(v.body.keys, v.body.values):
+                        if isinstance(dk, ast.Constant) and dk.value == "payload" and norm(dv) == pp:
+                            payload_ok = True
                 if isinstance(v, ast.Dict):
                     for dk, dv in zip(v.keys, v.values):
                         if isinstance(dk, ast.Constant) and dk.value == "qos" and norm(dv) == qp:
@@ -417,50 +422,95 @@ def subscriptions(ctx: Ctx, chk, rule: str) -> None:
         chk.ok(rule, key, f"partial topics = '/+/+/<c>/+/+' for c in {commands}", ctx.loc(conn, lval))
     else:
         chk.refute(rule, key, f"subscribed partial topics {got} differ from {want}: messages of a missing command are never received / foreign topics are", ctx.loc(conn, lval))
-    # loop subscribes every element under the in-prefix
+    # every element is subscribed under the in-prefix: the topic handed to self._subscribe is f"{self.in_prefix}{p}"
+    # with p ranging over the literal list (for loop, comprehension or generator chain), unconditionally, and awaited
     chk.instance(rule)
-    loops = [n for n in ctx.own_nodes(conn) if isinstance(n, ast.For) and isinstance(n.iter, ast.Name) and n.iter.id == lname and isinstance(n.target, ast.Name)]
     key = f"{conn.fq}::subscribe-loop"
-    if len(loops) != 1:
-        raise AnalysisError("TOPIC-MAP: subscription loop not recognised")
-    lp = loops[0]
-    subs = [n for n in ast.walk(lp) if isinstance(n, ast.Call) and norm(n.func) == "self._subscribe"]
+    subs = [n for n in ctx.own_nodes(conn) if isinstance(n, ast.Call) and norm(n.func) == "self._subscribe"]
+    parents = ctx.prog.parents
+    la_all = I.local_assigns(conn)
+    binders = {}
+    for n in ctx.own_nodes(conn):
+        if isinstance(n, (ast.For, ast.comprehension)) and isinstance(n.target, ast.Name):
+            binders.setdefault(n.target.id, []).append(n)
+
+    filtered = []
+
+    def subst(e, depth=0):
+        if depth > 10:
+            return e
+        if isinstance(e, ast.Name):
+            bs = binders.get(e.id) or []
+            if len(bs) == 1 and not [v for v in (la_all.get(e.id) or []) if v is not None]:
+                b_ = bs[0]
+                if isinstance(b_, ast.comprehension) and b_.ifs:
+                    filtered.append(b_)
+                it = b_.iter
+                if isinstance(it, ast.Name):
+                    if it.id == lname:
+                        return ast.Name(id="<PARTIAL>", ctx=ast.Load())
+                    vs = la_all.get(it.id) or []
+                    it = vs[0] if len(vs) == 1 and isinstance(vs[0], ast.expr) else it
+                if isinstance(it, (ast.GeneratorExp, ast.ListComp)) and len(it.generators) == 1:
+                    if it.generators[0].ifs:
+                        filtered.append(it.generators[0])
+                    return subst(it.elt, depth + 1)
+                return e
+            vs = la_all.get(e.id) or []
+            if len(vs) == 1 and isinstance(vs[0], ast.expr) and not bs:
+                return subst(vs[0], depth + 1)
+            return e
+        if isinstance(e, ast.JoinedStr):
+            return ast.JoinedStr(values=[ast.FormattedValue(value=subst(v.value, depth + 1), conversion=v.conversion, format_spec=v.format_spec) if isinstance(v, ast.FormattedValue) else v for v in e.values])
+        return e
+
     ok = False
-    why = "no self._subscribe call in the loop"
+    why = "no self._subscribe call in connect"
+    lp_loc = subs[0] if subs else conn.node
     if len(subs) == 1:
         s = subs[0]
-        # unconditional in loop body (not inside if / except handler)
-        cur = s
         cond = False
-        while cur is not lp:
-            par = ctx.prog.parents[cur]
-            if isinstance(par, ast.If) or isinstance(par, ast.ExceptHandler):
+        cur = s
+        while cur in parents and cur is not conn.node:
+            par = parents[cur]
+            if isinstance(par, (ast.If, ast.IfExp, ast.While)) or isinstance(par, ast.ExceptHandler) or (isinstance(par, ast.Try) and any(cur is x for x in par.orelse)):
                 cond = True
             cur = par
         arg = s.args[0] if s.args else None
-        tname = norm(arg) if arg is not None else ""
-        la = [n.value for n in ast.walk(lp) if isinstance(n, ast.Assign) and isinstance(n.targets[0], ast.Name) and n.targets[0].id == tname]
-        topic_ok = False
-        if len(la) == 1 and isinstance(la[0], ast.JoinedStr):
-            vals = la[0].values
-            topic_ok = len(vals) == 2 and all(isinstance(v, ast.FormattedValue) for v in vals) and norm(vals[0].value) == "self.in_prefix" and norm(vals[1].value) == lp.target.id
-        elif isinstance(arg, ast.JoinedStr):
-            vals = arg.values
-            topic_ok = len(vals) == 2 and all(isinstance(v, ast.FormattedValue) for v in vals) and norm(vals[0].value) == "self.in_prefix" and norm(vals[1].value) == lp.target.id
-        # awaited: directly, or collected and gathered
-        awaited = isinstance(ctx.prog.parents.get(s), ast.Await)
+        t = subst(arg) if arg is not None else None
+        topic_ok = isinstance(t, ast.JoinedStr) and len(t.values) == 2 and all(isinstance(v, ast.FormattedValue) for v in t.values) and norm(t.values[0].value) == "self.in_prefix" and norm(t.values[1].value) == "<PARTIAL>"
+        if filtered:
+            cond = True
+        # awaited: directly, or collected (list / comprehension / append) and gathered
+        awaited = isinstance(parents.get(s), ast.Await)
         if not awaited:
             gathers = [n for n in ctx.own_nodes(conn) if isinstance(n, ast.Await) and isinstance(n.value, ast.Call) and norm(n.value.func).endswith("gather")]
-            appended = isinstance(ctx.prog.parents.get(s), ast.Call) and norm(ctx.prog.parents[s].func).endswith(".append")
-            if gathers and appended:
-                lst = norm(ctx.prog.parents[s].func.value)
-                awaited = any(any(isinstance(a, ast.Starred) and norm(a.value) == lst for a in g.value.args) for g in gathers)
+            lst = None
+            cur = s
+            while cur in parents and cur is not conn.node:
+                par = parents[cur]
+                if isinstance(par, ast.Call) and isinstance(par.func, ast.Attribute) and par.func.attr == "append" and any(a is cur for a in par.args):
+                    lst = norm(par.func.value)
+                    break
+                if isinstance(par, ast.Assign) and len(par.targets) == 1 and isinstance(par.targets[0], ast.Name) and isinstance(par.value, (ast.ListComp, ast.List)):
+                    lst = par.targets[0].id
+                    break
+                if isinstance(par, ast.Starred) or (isinstance(par, ast.Call) and norm(par.func).endswith("gather")):
+                    lst = "<inline>"
+                    break
+                cur = par
+            if lst == "<inline>":
+                awaited = any(any(x is s for x in ast.walk(g_)) for g_ in gathers)
+            elif lst:
+                awaited = any(any(isinstance(a_, ast.Starred) and norm(a_.value) == lst for a_ in g_.value.args) for g_ in gathers)
         ok = (not cond) and topic_ok and awaited
         why = "conditional subscribe" if cond else "topic is not in_prefix + partial topic" if not topic_ok else "subscribe coroutine is never awaited" if not awaited else ""
+    elif len(subs) > 1:
+        why = f"{len(subs)} self._subscribe call sites"
     if ok:
-        chk.ok(rule, key, "every partial topic is subscribed under the in-prefix and awaited", ctx.loc(conn, lp))
+        chk.ok(rule, key, "every partial topic is subscribed under the in-prefix and awaited", ctx.loc(conn, lp_loc))
     else:
-        chk.refute(rule, key, f"subscription loop: {why}", ctx.loc(conn, lp))
+        chk.refute(rule, key, f"subscription loop: {why}", ctx.loc(conn, lp_loc))
 
 
 # ---------------------------------------------------------------------------
@@ -604,28 +654,35 @@ def task_esc(ctx: Ctx, chk) -> None:
     if f is None:
         raise AnalysisError("anchor vanished: MQTTClient._handle_incoming")
     escape_rule(ctx, chk, rule, [("MQTTClient._handle_incoming", eea.escapes_of(f, None))], lambda exc, site: False, eea)
-    # every handler forwards
+    # every handler forwards (handlers of the loop and of per-message helpers the loop calls)
+    ANCH = ("_receive", "_receive_error", "_parse_mqtt_to_message", "_connect", "_disconnect", "_subscribe", "_publish")
+    scope = [f]
+    for x in ctx.own_nodes(f):
+        if isinstance(x, ast.Call) and isinstance(x.func, ast.Attribute) and isinstance(x.func.value, ast.Name) and x.func.value.id == "self" and x.func.attr.startswith("_") and x.func.attr not in ANCH:
+            h = mc.find_method(x.func.attr)
+            if h is not None and h not in scope:
+                scope.append(h)
     n = 0
-    for node in ctx.own_nodes(f):
+    for f_, node in [(g_, nd) for g_ in scope for nd in ctx.own_nodes(g_)]:
         if isinstance(node, ast.ExceptHandler):
             n += 1
             chk.instance(rule)
-            key = fkey(f, node.type) if node.type is not None else f"{f.fq}::except"
+            key = fkey(f_, node.type) if node.type is not None else f"{f_.fq}::except"
             fw = [x for b in node.body for x in ast.walk(b) if isinstance(x, ast.Call) and norm(x.func) == "self._receive_error"]
             rr = [x for b in node.body for x in ast.walk(b) if isinstance(x, ast.Raise)]
             if fw and not rr:
                 arg = fw[0].args[0] if fw[0].args else None
-                cls = ctx.eea().exc_class_of(arg.func, _frame(ctx, f)) if isinstance(arg, ast.Call) else None
+                cls = ctx.eea().exc_class_of(arg.func, _frame(ctx, f_)) if isinstance(arg, ast.Call) else None
                 if cls and eea.issub(cls, TERR):
-                    chk.ok(rule, key, f"forwarded as {short(cls)}", ctx.loc(f, node))
+                    chk.ok(rule, key, f"forwarded as {short(cls)}", ctx.loc(f_, node))
                 else:
-                    chk.refute(rule, key, f"the forwarded error `{norm(arg)[:60] if arg is not None else '?'}` is not a TransportError", ctx.loc(f, node))
+                    chk.refute(rule, key, f"the forwarded error `{norm(arg)[:60] if arg is not None else '?'}` is not a TransportError", ctx.loc(f_, node))
             else:
-                chk.refute(rule, key, "a receive failure is handled without forwarding it to read(): reception ends silently", ctx.loc(f, node))
+                chk.refute(rule, key, "a receive failure is handled without forwarding it to read(): reception ends silently", ctx.loc(f_, node))
     chk.floor(rule, "handlers in the receive task", n, 1)
     # the loop feeds _receive with topic and decoded payload
     chk.instance(rule)
-    rc = [x for x in ctx.own_nodes(f) if isinstance(x, ast.Call) and norm(x.func) == "self._receive"]
+    rc = [x for g_ in scope for x in ctx.own_nodes(g_) if isinstance(x, ast.Call) and norm(x.func) == "self._receive"]
     key = f"{f.fq}::self._receive"
     if len(rc) == 1 and len(rc[0].args) == 2 and norm(rc[0].args[0]).endswith(".topic.value"):
         chk.ok(rule, key, "each broker message is forwarded once with its topic", ctx.loc(f, rc[0]))
